@@ -64,6 +64,7 @@ def run(ctx, res):
         paths = fams.get(fam, [])
         rets = [p for p in paths if p.end == 'return']
         ok_copy = ok_mask = ok_rand = ok_crc = ok_id = ok_fill = False
+        bad_fixed = False
         why = []
         masks_seen = set()
         for p in paths:
@@ -170,12 +171,22 @@ def run(ctx, res):
                             and R is not None:
                         crc = ('call', e[1], e[2], e[3])
                         ok_crc = True
+            if arr is not None:
+                fixed = [term_int(e[1][2]) for e in p.effects if e[0] == 'write' and e[1][0] == 'index' and term_int(e[1][2]) is not None and base_array(e[1]) == arr]
+                if fixed != [0]:
+                    bad_fixed = True      # the checksum input is touched at a fixed position other than the one OR of the random bits
+                    why.append('checksum input written at fixed positions %s' % fixed)
             if crc is not None and R is not None:
                 got = {}
+                times = {}
                 for e in p.effects:
                     if e[0] == 'write' and e[1][0] == 'index' and term_int(e[1][2]) is not None and base_array(e[1])[0] == 'repeat' and base_array(e[1]) != arr:
                         got[term_int(e[1][2])] = e[2]
-                ok_id = all(k in got and any(x == crc for x in term_walk(got[k])) for k in (0, 1, 2)) and got.get(19) == R
+                        times[term_int(e[1][2])] = times.get(term_int(e[1][2]), 0) + 1
+                # each of the four positions is written exactly once and no other fixed position is written (a later
+                # overwrite or patch-up of an id byte would make the id differ from what the checks above describe)
+                once = set(times) == {0, 1, 2, 19} and all(v == 1 for v in times.values())
+                ok_id = once and all(k in got and any(x == crc for x in term_walk(got[k])) for k in (0, 1, 2)) and got.get(19) == R
                 if not ok_id:
                     why.append('id bytes: %s' % {k: fmt(v)[:60] for k, v in got.items()})
         # bytes 3..19 random
@@ -204,7 +215,7 @@ def run(ctx, res):
                         ok_fill = True
         res.check(ok_copy, 'TABLE', fn + '/' + fam, 'the first %d address octets are the CRC input prefix' % n, key='octets:' + fam)
         res.check(ok_mask, 'TABLE', fn + '/' + fam, 'the %s mask table equals BEP42 %s and is applied to octets 0..%d' % (fam, ['%02x' % x for x in want_mask], n), detail=str(sorted(masks_seen)), key='mask:' + fam)
-        res.check(ok_rand, 'FLOW', fn + '/' + fam, 'one random byte is mixed (OR) into the first masked octet', key='rand-mix:' + fam)
+        res.check(ok_rand and not bad_fixed, 'FLOW', fn + '/' + fam, 'one random byte is mixed (OR) into the first masked octet', key='rand-mix:' + fam)
         res.check(ok_crc, 'FLOW', fn + '/' + fam, 'crc32c_append(0, masked_prefix[0..%d]) over the array holding the masked, random-mixed octets' % n, key='crc-input:' + fam)
         res.check(ok_id, 'FLOW', fn + '/' + fam, 'id[0], id[1], id[2] derive from that CRC and id[19] is the same random byte that went into the CRC input', detail='; '.join(why[:1]), key='id-bytes:' + fam)
         res.check(ok_fill, 'FLOW', fn + '/' + fam, 'id[3..19] are filled with random bytes', key='fill:' + fam)
